@@ -842,6 +842,44 @@ func discharge(o *Obligation, dir string, axioms []*Term, secs int, thorough boo
 		wg.Wait()
 		cancel()
 	}
+	// stage 3 (quick tier only): nobody decided within the budget. Before calling that a violation, give the two
+	// most successful configurations three times the budget: an alarm on a loaded machine costs more than a minute
+	anyDecided := false
+	for _, r := range results {
+		if decided(r) {
+			anyDecided = true
+		}
+	}
+	if !anyDecided && !thorough && !o.Cover && os.Getenv("GOCV_NO_RETRY") == "" {
+		var wg sync.WaitGroup
+		var mu sync.Mutex
+		cctx, cancel := context.WithCancel(ctx)
+		run := func(f string, tag string, ground bool) {
+			defer wg.Done()
+			r := runSolver(cctx, solvers[0], f, secs*3)
+			r.backend += tag
+			if ground && r.answer != "unsat" {
+				r.answer = "unknown"
+			}
+			mu.Lock()
+			results = append(results, r)
+			if decided(r) {
+				cancel()
+			}
+			mu.Unlock()
+		}
+		wg.Add(1)
+		go run(file, "(retry)", false)
+		if gf := groundVariant(file); gf != "" {
+			wg.Add(1)
+			go func() {
+				defer os.Remove(gf)
+				run(gf, "(ground,retry)", true)
+			}()
+		}
+		wg.Wait()
+		cancel()
+	}
 	var total int64
 	var best *solveResult
 	for i := range results {
